@@ -157,7 +157,7 @@ def run_chunk(chunk):
     elif k == 'cli':
         swsets = list(itertools.product((0, 1), repeat=6))
         work = [(sw, sl) for sw in swsets for sl in range(len(CLI_S_LISTS))]
-        with tempfile.TemporaryDirectory(prefix='c07_', dir=clidrv.scratch_root()) as d:
+        with tempfile.TemporaryDirectory(prefix='c07_', dir=clidrv.odd_root()) as d:
             cells = _make_dir(d)
             for sw, sl in work[chunk['part']::chunk['parts']]:
                 case = {'cli': True, 'sw': list(sw), 'slist': sl}
@@ -167,7 +167,7 @@ def run_chunk(chunk):
                 res.add(vs)
     elif k == 'subproc':
         n_ok = 0
-        with tempfile.TemporaryDirectory(prefix='c07s_', dir=clidrv.scratch_root()) as d:
+        with tempfile.TemporaryDirectory(prefix='c07s_', dir=clidrv.odd_root()) as d:
             cells = _make_dir(d)
             for i, sw in enumerate(itertools.product((0, 1), repeat=6)):
                 if i % 8 != chunk['part']:
@@ -213,7 +213,7 @@ def _argv(d, sw, sl, mode):
 
 def _cli_case(case, pt, d=None, cells=None):
     if d is None:
-        with tempfile.TemporaryDirectory(prefix='c07_', dir=clidrv.scratch_root()) as dd:
+        with tempfile.TemporaryDirectory(prefix='c07_', dir=clidrv.odd_root()) as dd:
             return _cli_case(case, pt, dd, _make_dir(dd))
     sw, sl = case['sw'], case['slist']
     groups = sorted({ref.GROUP_DIGIT[g] for g in CLI_S_LISTS[sl]})
